@@ -128,7 +128,7 @@ def load_known():
     return json.load(open(p))
 
 
-def run_property(prop, tier="quick", F=None, quiet=False):
+def run_property(prop, tier="quick", F=None, quiet=False, write=True):
     t0 = time.time()
     seed = int(os.environ.get("VERIF_SEED", "0") or 0)
     if F is None:
@@ -155,6 +155,8 @@ def run_property(prop, tier="quick", F=None, quiet=False):
     if evaluated < floor or not required <= ids:
         floor_fail = "instances evaluated %d < floor %d or missing required %s" % (evaluated, floor, sorted(required - ids))
     out_lines = []
+    if not write:
+        return 1 if (violations or floor_fail) else 0, ctx
     os.makedirs(os.path.join(VERIF, "reports"), exist_ok=True)
     os.makedirs(os.path.join(VERIF, "evidence"), exist_ok=True)
     for inst, kf in knowns:
